@@ -8,7 +8,8 @@ From Coq Require Import ZArith List Lia Bool ZifyBool Sorted.
 Require Import Base.Bits Base.Iter Base.Wr Gen.Consts Gen.Types Gen.Preds
   Model.Packet Model.Pes Model.Psi Model.Pool Model.PoolRun Model.Reader Model.Demux Model.DemuxFull
   Spec.PesSpec Spec.PacketSpec Spec.PsiSpec Spec.StreamSpec
-  Proofs.PsiParse Proofs.PoolProofs Proofs.LossProofs Proofs.DemuxProofs
+  Proofs.PesParseRef Proofs.PsiParse Proofs.PsiParsePmt Proofs.PsiParseSi Proofs.PsiSiLink Proofs.PsiUserDesc
+  Proofs.PoolProofs Proofs.LossProofs Proofs.DemuxProofs
   Proofs.RoundTripDemux Proofs.RoundTripUnit Proofs.RoundTripPool Proofs.RoundTripMux Proofs.RoundTripRun
   Proofs.StreamUnits.
 Import ListNotations.
@@ -1066,8 +1067,8 @@ Proof.
   - destruct (event_facts x u k n q He) as (_ & _ & (Hok & _) & _). exact Hok.
 Qed.
 
-Lemma stream_bufs : stream_bytes rs = concat (map (fun e => spkt_bytes (ev_pkt e)) (rs_events rs)).
-Proof. unfold stream_bytes. apply flat_map_concat_map. Qed.
+Lemma stream_bufs : StreamSpec.stream_bytes rs = concat (map (fun e => spkt_bytes (ev_pkt e)) (rs_events rs)).
+Proof. unfold StreamSpec.stream_bytes. apply flat_map_concat_map. Qed.
 
 End Stream.
 End Top.
@@ -1280,7 +1281,7 @@ Qed.
 
 (* C02, delivered data: successive NextData calls on the bytes of a well-formed stream return exactly the expected
    data, all Ok, then ErrNoMorePackets *)
-Theorem data_exact : demux_all (stream_bytes rs) = map Ok (expected rs).
+Theorem data_exact : demux_all (StreamSpec.stream_bytes rs) = map Ok (expected rs).
 Proof.
   destruct stream_run as (pl' & pm' & out & pend' & Hf & Hd & He).
   destruct (pkts_seen _ (stream_pkts_ok SP rs Hwf)) as [Hb Hp].
@@ -1316,7 +1317,7 @@ Theorem delivered_at pre x u k n sp post d ds :
   rs_events rs = pre ++ EPkt x u k n sp :: post ->
   fst (ev_out (snd (delivered no_pend pre)) x u k n sp) = d :: ds ->
   exists sn s',
-    nd_iter (length (fst (delivered no_pend pre))) (init_dstate (new_reader (stream_bytes rs) None Seekable) 188) =
+    nd_iter (length (fst (delivered no_pend pre))) (init_dstate (new_reader (StreamSpec.stream_bytes rs) None Seekable) 188) =
       (map Ok (fst (delivered no_pend pre)), sn) /\
     nd full_parsers sn = (Ok d, s') /\
     r_rest (d_reader s') = flat_map (fun e => spkt_bytes (ev_pkt e)) post /\
@@ -1324,7 +1325,7 @@ Theorem delivered_at pre x u k n sp post d ds :
 Proof.
   intros Hev Hout. pose proof Hwf as (Hsorted & Hall & Hproj & Hfill & Hpat & Hann).
   pose proof (stream_pkts_ok SP rs Hwf) as Hsp. destruct (pkts_seen _ Hsp) as [Hb _].
-  set (sd := init_dstate (new_reader (stream_bytes rs) None Seekable) 188).
+  set (sd := init_dstate (new_reader (StreamSpec.stream_bytes rs) None Seekable) 188).
   assert (Hat : at_bufs sd (map ev_bytes ([] ++ pre ++ EPkt x u k n sp :: post))).
   { cbn [app]. rewrite <- Hev. unfold sd. rewrite stream_bufs.
     change (map ev_bytes (rs_events rs)) with (map (fun e => spkt_bytes (ev_pkt e)) (rs_events rs)).
@@ -1347,3 +1348,277 @@ Qed.
 
 End Stream.
 End Final.
+
+(* ---------------- the model is inhabited: packets for every piece, C13's sections ---------------- *)
+
+Lemma bytes_ok_b l : forallb (fun b => (0 <=? b) && (b <? 256)) l = true -> bytes_ok l.
+Proof. intros H. rewrite forallb_forall in H. apply Forall_forall. intros b Hb. specialize (H b Hb). unfold byte_ok. lia. Qed.
+
+(* the packet built around a piece of at most 184 bytes is conformant, whatever the stuffing value *)
+Lemma raw_packet_ok x cc err start has_pl piece sv :
+  0 <= x < 2 ^ 13 -> bytes_ok piece -> (length piece <= 184)%nat -> byte_ok sv -> (has_pl = false -> piece = []) ->
+  spkt_ok (raw_packet x cc err start has_pl piece sv).
+Proof.
+  intros Hx Hb Hl Hsv Hhp. set (len := Z.of_nat (length piece)).
+  assert (Hlen : 0 <= len <= 184) by (unfold len; lia).
+  unfold spkt_ok, raw_packet. cbn [sp_pkt sp_stuff]. fold len. split; [|split].
+  - constructor; cbn [Packet_Header Packet_AdaptationField Packet_Payload PacketHeader_HasAdaptationField PacketHeader_HasPayload].
+    + constructor; cbn [PacketHeader_PID PacketHeader_TransportScramblingControl PacketHeader_ContinuityCounter]; try lia; apply Z.mod_pos_bound; lia.
+    + unfold fill_af. destruct (len =? 184) eqn:E; cbn [negb]; [reflexivity|].
+      eexists. split; [reflexivity|]. unfold wf_af. cbn [PacketAdaptationField_IsOneByteStuffing].
+      destruct (len =? 183) eqn:E3.
+      * unfold af_rest_zero. cbn. repeat split; reflexivity.
+      * constructor; cbn -[Z.sub Z.add]; try reflexivity. lia.
+    + destruct has_pl; [exact Hb|apply Hhp; reflexivity].
+    + unfold fill_af, ref_af_size, ref_af_length. destruct (len =? 184) eqn:E; [fold len; lia|].
+      cbn [PacketAdaptationField_IsOneByteStuffing PacketAdaptationField_HasPCR PacketAdaptationField_HasOPCR
+           PacketAdaptationField_HasSplicingCountdown PacketAdaptationField_HasTransportPrivateData
+           PacketAdaptationField_HasAdaptationExtensionField PacketAdaptationField_StuffingLength].
+      destruct (len =? 183) eqn:E3; fold len; lia.
+  - unfold stuffing_of, fill_af. cbn [Packet_AdaptationField]. rewrite repeat_length.
+    destruct (len =? 184) eqn:E; [destruct (len <? 183) eqn:E2; lia|].
+    cbn [PacketAdaptationField_StuffingLength]. destruct (len =? 183) eqn:E3; destruct (len <? 183) eqn:E2; lia.
+  - apply Forall_forall. intros b Hin. apply repeat_spec in Hin. subst b. exact Hsv.
+Qed.
+
+(* the sections C13 decodes: PAT, PMT, SDT, NIT, EIT, TOT, descriptor loops in any domain D that satisfies C13's
+   descriptor premises (no descriptors, user-defined descriptors: C13_no_desc_premises, C13_user_desc_premises) *)
+Inductive c13_sections : list Z -> PSISection -> Prop :=
+| c13_pat ssi pb ext ver cni sn lsn progs : pat_wf ext ver sn lsn progs ->
+    c13_sections (spec_pat_section ssi pb ext ver cni sn lsn progs) (pat_section_value ssi pb ext ver cni sn lsn progs)
+| c13_pmt D ssi pb ext ver cni sn lsn pcr pds pbytes xs : desc_premises D -> pmt_wf D ext ver sn lsn pcr pds pbytes xs ->
+    c13_sections (spec_pmt_section ssi pb ext ver cni sn lsn pcr pbytes (map stream_spec xs))
+                 (pmt_section_value ssi pb ext ver cni sn lsn pcr pds pbytes xs)
+| c13_sdt D tid ssi pb ext ver cni sn lsn onid xs : desc_premises D -> sdt_wf D tid ext ver sn lsn onid xs ->
+    c13_sections (spec_section tid ssi pb (spec_sdt_body ext ver cni sn lsn onid (map sv_spec xs)))
+                 (sdt_section_value tid ssi pb ext ver cni sn lsn onid xs)
+| c13_nit D tid ssi pb ext ver cni sn lsn nds nbytes xs : desc_premises D -> nit_wf D tid ext ver sn lsn nds nbytes xs ->
+    c13_sections (spec_section tid ssi pb (spec_nit_body ext ver cni sn lsn nbytes (map ts_spec xs)))
+                 (nit_section_value tid ssi pb ext ver cni sn lsn nds nbytes xs)
+| c13_eit D tid ssi pb ext ver cni sn lsn tsid onid slsn ltid xs : desc_premises D ->
+    eit_wf D c15_time c15_dur tid ext ver sn lsn tsid onid slsn ltid xs ->
+    c13_sections (spec_section tid ssi pb (spec_eit_body ext ver cni sn lsn tsid onid slsn ltid (map ev_spec xs)))
+                 (eit_section_value tid ssi pb ext ver cni sn lsn tsid onid slsn ltid xs)
+| c13_tot D ssi pb t tb ds bytes : desc_premises D -> c15_time t tb -> D ds bytes -> 7 + Z.of_nat (length bytes) + 4 < 4096 ->
+    c13_sections (spec_section 115 ssi pb (spec_tot_body tb bytes)) (tot_section_value ssi pb t tb ds bytes).
+
+Theorem c13_sections_parse b s : c13_sections b s -> sec_parses b s.
+Proof.
+  intros [ssi pb ext ver cni sn lsn progs H | D ssi pb ext ver cni sn lsn pcr pds pbytes xs HD H
+         | D tid ssi pb ext ver cni sn lsn onid xs HD H | D tid ssi pb ext ver cni sn lsn nds nbytes xs HD H
+         | D tid ssi pb ext ver cni sn lsn tsid onid slsn ltid xs HD H | D ssi pb t tb ds bytes HD Ht Hd Hl].
+  - exact (pat_sec_parses ssi pb ext ver cni sn lsn progs H).
+  - exact (pmt_sec_parses_p D HD ssi pb ext ver cni sn lsn pcr pds pbytes xs H).
+  - exact (sdt_parses_p D HD tid ssi pb ext ver cni sn lsn onid xs H).
+  - exact (nit_parses_p D HD tid ssi pb ext ver cni sn lsn nds nbytes xs H).
+  - exact (eit_parses_p D HD tid ssi pb ext ver cni sn lsn tsid onid slsn ltid xs H).
+  - exact (tot_parses_p D HD ssi pb t tb ds bytes Ht Hd Hl).
+Qed.
+
+(* ---------------- every cut into pieces of at most 184 bytes is a carriage ---------------- *)
+
+Lemma cut_concat sizes : forall bytes, concat (cut sizes bytes) = bytes.
+Proof.
+  induction sizes as [|s r IH]; intros bytes; cbn [cut concat]; [apply app_nil_r|]. rewrite IH. apply firstn_skipn.
+Qed.
+
+Lemma piece_packets_payload x sv : forall pieces cc st, map sp_payload (piece_packets x cc st pieces sv) = pieces.
+Proof. induction pieces as [|pc r IH]; intros cc st; [reflexivity|]. cbn [piece_packets map]. rewrite IH. reflexivity. Qed.
+
+Lemma piece_packets_on x sv : 0 <= x < 2 ^ 13 -> byte_ok sv -> forall pieces cc st,
+  Forall (fun pc => bytes_ok pc /\ (length pc <= 184)%nat) pieces -> Forall (pkt_on x) (piece_packets x cc st pieces sv).
+Proof.
+  intros Hx Hsv. induction pieces as [|pc r IH]; intros cc st H; [constructor|]. cbn [piece_packets].
+  destruct (Forall_inv H) as [Hb Hl]. constructor; [|apply IH, (Forall_inv_tail H)].
+  split; [apply raw_packet_ok; try assumption; discriminate|]. repeat split; reflexivity.
+Qed.
+
+Lemma piece_packets_cont x sv : forall pieces cc,
+  Forall (fun sp => pusi (sp_pkt sp) = false /\ disc_flag (sp_pkt sp) = false) (piece_packets x cc false pieces sv).
+Proof.
+  induction pieces as [|pc r IH]; intros cc; [constructor|]. cbn [piece_packets]. constructor; [|apply IH].
+  split; [reflexivity|]. unfold disc_flag, piece_packet, raw_packet, fill_af. cbn [sp_pkt Packet_AdaptationField].
+  destruct (Z.of_nat (length pc) =? 184); reflexivity.
+Qed.
+
+Lemma bytes_ok_concat_pieces pieces : bytes_ok (concat pieces) -> Forall bytes_ok pieces.
+Proof.
+  induction pieces as [|pc r IH]; intros H; [constructor|]. cbn [concat] in H. apply Forall_app in H. destruct H as [H1 H2].
+  constructor; [exact H1|apply IH, H2].
+Qed.
+
+(* the cut is admissible for the unit: pieces of at most 184 bytes; for a PSI unit every proper beginning ends inside
+   the last section (S5) *)
+Definition cut_ok_b (u : sunit) (pieces : list (list Z)) : bool :=
+  forallb (fun pc => (length pc <=? 184)%nat) pieces &&
+  match u with
+  | UPsi su => forallb (fun k => let L := Z.of_nat (length (concat (firstn k pieces))) in
+                                 (last_sec_start su <? L) && (L <? last_sec_end su)) (seq 1 (length pieces - 1))
+  | UPes _ => true
+  end.
+
+Section Inhabited.
+Variable SP : list Z -> PSISection -> Prop.
+
+Lemma unit_bytes_ok u : unit_ok SP u -> bytes_ok (unit_bytes u).
+Proof.
+  destruct u as [pu|su]; cbn [unit_ok unit_bytes].
+  - intros (_ & Hd & _). unfold pes_unit_bytes. apply Forall_app. split; [|exact Hd].
+    destruct (pu_opt pu) as [[[h pack] st]|]; [unfold ref_pes_bytes, ref_opt_bytes; apply Forall_app; split|unfold ref_pes_bytes_noopt];
+      apply bytes_of_bits_ok.
+  - intros (Hp & Hf & Hfb & _ & Hs). unfold psi_unit_bytes. constructor; [unfold byte_ok; lia|].
+    apply Forall_app. split; [exact Hfb|]. apply Forall_app. split.
+    + induction Hs as [|s l (_ & _ & _ & Hb & _) _ IH]; [constructor|]. cbn [map concat]. apply Forall_app. split; [|exact IH].
+      unfold sec_bytes. apply RoundTripTables.spec_section_ok, Hb.
+    + apply Forall_forall. intros b Hb. apply repeat_spec in Hb. subst b. unfold byte_ok. lia.
+Qed.
+
+Theorem carry_ok x cc u sizes sv : 0 <= x < 2 ^ 13 -> byte_ok sv -> unit_ok SP u ->
+  cut_ok_b u (cut sizes (unit_bytes u)) = true -> carried_ok SP x (carry x cc u sizes sv).
+Proof.
+  intros Hx Hsv Hu Hcut. set (pieces := cut sizes (unit_bytes u)) in *.
+  assert (Hcat : concat pieces = unit_bytes u) by apply cut_concat.
+  assert (Hne : pieces <> []) by (unfold pieces; destruct sizes; discriminate).
+  apply andb_true_iff in Hcut. destruct Hcut as [Hlen Hpsi].
+  assert (Hpieces : Forall (fun pc => bytes_ok pc /\ (length pc <= 184)%nat) pieces).
+  { pose proof (bytes_ok_concat_pieces pieces ltac:(rewrite Hcat; apply unit_bytes_ok, Hu)) as Hb.
+    rewrite forallb_forall in Hlen. apply Forall_forall. intros pc Hin. split; [apply (proj1 (Forall_forall _ _) Hb pc Hin)|].
+    apply Nat.leb_le, Hlen, Hin. }
+  assert (Hc : cu_unit (carry x cc u sizes sv) = u /\ cu_pkts (carry x cc u sizes sv) = piece_packets x cc true pieces sv).
+  { unfold carry. fold pieces. destruct pieces as [|pc r]; [contradiction|]. cbn [piece_packets]. split; reflexivity. }
+  destruct Hc as [Hcu Hcp]. unfold carried_ok. rewrite Hcu.
+  assert (Hfirst : exists pc r, pieces = pc :: r) by (destruct pieces as [|pc r]; [contradiction|eauto]).
+  destruct Hfirst as (pc & r & Epc).
+  assert (Hcf : cu_first (carry x cc u sizes sv) = piece_packet x cc true pc sv /\
+                cu_rest (carry x cc u sizes sv) = piece_packets x (cc + 1) false r sv).
+  { unfold cu_pkts in Hcp. rewrite Epc in Hcp. cbn [piece_packets] in Hcp. injection Hcp as H1 H2. split; assumption. }
+  destruct Hcf as [Hcf Hcr].
+  split; [exact Hu|]. split; [rewrite Hcp; apply piece_packets_on; assumption|]. split; [rewrite Hcf; reflexivity|].
+  split; [rewrite Hcr; apply piece_packets_cont|]. split.
+  - rewrite Hcp. unfold payload_of. rewrite piece_packets_payload. exact Hcat.
+  - intros k Hk. rewrite Hcp in Hk |- *. destruct u as [pu|su]; [exact I|]. cbn [psi_partial].
+    assert (Hl : length (piece_packets x cc true pieces sv) = length pieces).
+    { rewrite <- (piece_packets_payload x sv pieces cc true) at 2. rewrite map_length. reflexivity. }
+    rewrite Hl in Hk. unfold payload_of. rewrite <- firstn_map, piece_packets_payload.
+    rewrite forallb_forall in Hpsi. specialize (Hpsi k ltac:(apply in_seq; lia)). cbv zeta in Hpsi. lia.
+Qed.
+
+End Inhabited.
+
+(* ---------------- a concrete stream ---------------- *)
+
+(* PAT (PID 0, one packet, 0xFF tail), PMT (PID 4096, pointer_field 2, cut into three packets of 8 / 10 / 11 bytes
+   with adaptation-field stuffing of value 0x42), a video PID 256 (two PES with PTS, CRC, pack header and header
+   stuffing, PES_packet_length 0, the first cut into two packets), an audio PID 257 (one bounded PES), interleaved,
+   with a null packet, an adaptation-field-only packet and a packet with the transport_error_indicator in between *)
+Definition ex_pat_sec : psi_sec :=
+  {| se_tid := 0; se_ssi := true; se_pb := false; se_body := spec_pat_body 1 0 true 0 0 [(1, 4096)];
+     se_value := pat_section_value true false 1 0 true 0 0 [(1, 4096)] |}.
+Definition ex_streams : list (Z * Z * list Descriptor * list Z) := [(27, 256, [], []); (15, 257, [], [])].
+Definition ex_pmt_sec : psi_sec :=
+  {| se_tid := 2; se_ssi := true; se_pb := false;
+     se_body := spec_pmt_body 1 0 true 0 0 256 [] (map stream_spec ex_streams);
+     se_value := pmt_section_value true false 1 0 true 0 0 256 [] [] ex_streams |}.
+Definition ex_pat : sunit := UPsi {| su_ptr := 0; su_fill := []; su_secs := [ex_pat_sec]; su_tail := 3 |}.
+Definition ex_pmt : sunit := UPsi {| su_ptr := 2; su_fill := [170; 85]; su_secs := [ex_pmt_sec]; su_tail := 0 |}.
+Definition ex_opt := Some (example_all, [170; 187], 3%nat).
+Definition ex_v1 : sunit := UPes {| pu_sid := 224; pu_plen := 0; pu_opt := ex_opt; pu_data := [1; 2; 3; 4; 5; 6; 7; 8; 9; 10] |}.
+Definition ex_v2 : sunit := UPes {| pu_sid := 224; pu_plen := 0; pu_opt := ex_opt; pu_data := [11; 12; 13; 14; 15] |}.
+Definition ex_a1 : sunit := UPes {| pu_sid := 192; pu_plen := 23; pu_opt := ex_opt; pu_data := [21; 22; 23; 24] |}.
+
+Definition c_pat := carry 0 5 ex_pat [] 255.
+Definition c_pmt := carry 4096 9 ex_pmt [8%nat; 10%nat] 66.
+Definition c_v1 := carry 256 14 ex_v1 [12%nat] 0.
+Definition c_v2 := carry 256 16 ex_v2 [] 255.
+Definition c_a1 := carry 257 3 ex_a1 [] 7.
+
+Definition at_ev (x : Z) (c : carried) (i : nat) : ev :=
+  EPkt x (cu_unit c) i (length (cu_pkts c)) (nth i (cu_pkts c) dflt_spkt).
+
+Definition ex_null := raw_packet 8191 0 false false true (repeat 255 184) 0.
+Definition ex_af_only := raw_packet 256 15 false false false [] 255.
+Definition ex_tei := raw_packet 257 4 true false true (repeat 9 184) 0.
+
+Definition ex_events : list ev :=
+  [ at_ev 0 c_pat 0; EFill ex_null; at_ev 256 c_v1 0; at_ev 4096 c_pmt 0; at_ev 257 c_a1 0; at_ev 4096 c_pmt 1;
+    at_ev 256 c_v1 1; EFill ex_af_only; at_ev 4096 c_pmt 2; EFill ex_tei; at_ev 256 c_v2 0 ].
+
+Definition ex_stream : ref_stream :=
+  {| rs_pids := [(0, [c_pat]); (256, [c_v1; c_v2]); (257, [c_a1]); (4096, [c_pmt])]; rs_events := ex_events |}.
+
+Lemma ex_pes_ok data plen sid : bytes_ok data -> 0 <= sid < 256 -> lib_has_optional_header sid = true ->
+  (plen = 0 \/ (0 < plen < 65536 /\ plen = 19 + Z.of_nat (length data))) ->
+  pes_unit_ok {| pu_sid := sid; pu_plen := plen; pu_opt := ex_opt; pu_data := data |}.
+Proof.
+  intros Hd Hs Hl Hp. unfold pes_unit_ok. cbn [pu_sid pu_data pu_opt pu_plen ex_opt].
+  split; [exact Hs|]. split; [exact Hd|]. split; [split; [exact Hl|exact example_all_wf]|].
+  destruct Hp as [->|[H1 H2]]; [left; reflexivity|right]. split; [exact H1|]. rewrite H2. reflexivity.
+Qed.
+
+Lemma ex_units_ok : unit_ok c13_sections ex_pat /\ unit_ok c13_sections ex_pmt /\
+  unit_ok c13_sections ex_v1 /\ unit_ok c13_sections ex_v2 /\ unit_ok c13_sections ex_a1.
+Proof.
+  split; [|split; [|split; [|split]]].
+  - cbn [unit_ok ex_pat]. unfold psi_unit_ok. cbn [su_ptr su_fill su_secs]. split; [lia|]. split; [reflexivity|].
+    split; [constructor|]. split; [discriminate|]. constructor; [|constructor].
+    unfold sec_ok. cbn [se_tid se_body ex_pat_sec]. split; [lia|]. split; [reflexivity|].
+    split; [vm_compute; reflexivity|]. split; [apply bytes_ok_b; vm_compute; reflexivity|].
+    unfold sec_bytes. cbn [se_tid se_ssi se_pb se_body se_value ex_pat_sec].
+    refine (c13_pat true false 1 0 true 0 0 [(1, 4096)] _).
+    unfold pat_wf, pat_entry_ok. cbn [length]. repeat split; try lia. repeat constructor; cbn [fst snd]; lia.
+  - cbn [unit_ok ex_pmt]. unfold psi_unit_ok. cbn [su_ptr su_fill su_secs]. split; [lia|]. split; [reflexivity|].
+    split; [apply bytes_ok_b; reflexivity|]. split; [discriminate|]. constructor; [|constructor].
+    unfold sec_ok. cbn [se_tid se_body ex_pmt_sec]. split; [lia|]. split; [reflexivity|].
+    split; [vm_compute; reflexivity|]. split; [apply bytes_ok_b; vm_compute; reflexivity|].
+    unfold sec_bytes. cbn [se_tid se_ssi se_pb se_body se_value ex_pmt_sec].
+    refine (c13_pmt no_desc16 true false 1 0 true 0 0 256 [] [] ex_streams no_desc_premises _).
+    unfold pmt_wf. repeat split; try lia; try reflexivity; try (repeat constructor; cbn; lia); try (vm_compute; reflexivity).
+  - apply ex_pes_ok; [apply bytes_ok_b; reflexivity|lia|reflexivity|left; reflexivity].
+  - apply ex_pes_ok; [apply bytes_ok_b; reflexivity|lia|reflexivity|left; reflexivity].
+  - apply ex_pes_ok; [apply bytes_ok_b; reflexivity|lia|reflexivity|right; cbn [length]; lia].
+Qed.
+
+Example ex_stream_wf : wf_stream c13_sections ex_stream.
+Proof.
+  destruct ex_units_ok as (U1 & U2 & U3 & U4 & U5).
+  assert (B255 : byte_ok 255) by (unfold byte_ok; lia). assert (B66 : byte_ok 66) by (unfold byte_ok; lia).
+  assert (B0 : byte_ok 0) by (unfold byte_ok; lia). assert (B7 : byte_ok 7) by (unfold byte_ok; lia).
+  assert (C1 : carried_ok c13_sections 0 c_pat) by (apply carry_ok; [lia|assumption|assumption|vm_compute; reflexivity]).
+  assert (C2 : carried_ok c13_sections 4096 c_pmt) by (apply carry_ok; [lia|assumption|assumption|vm_compute; reflexivity]).
+  assert (C3 : carried_ok c13_sections 256 c_v1) by (apply carry_ok; [lia|assumption|assumption|vm_compute; reflexivity]).
+  assert (C4 : carried_ok c13_sections 256 c_v2) by (apply carry_ok; [lia|assumption|assumption|vm_compute; reflexivity]).
+  assert (C5 : carried_ok c13_sections 257 c_a1) by (apply carry_ok; [lia|assumption|assumption|vm_compute; reflexivity]).
+  unfold wf_stream. cbn [rs_pids rs_events ex_stream]. split; [|split; [|split; [|split; [|split]]]].
+  - cbn [map fst]. repeat constructor; lia.
+  - assert (F1 : forall x c, carried_ok c13_sections x c -> Forall (carried_ok c13_sections x) [c]) by (intros; constructor; [assumption|constructor]).
+    assert (G1 : forall (Q : carried -> Prop) c, Q c -> Forall Q [c]) by (intros; constructor; [assumption|constructor]).
+    constructor; [|constructor; [|constructor; [|constructor; [|constructor]]]]; cbn [fst snd]; unfold pid_units_ok.
+    + split; [apply F1, C1|]. split; [vm_compute; exact I|]. right. split; [left; reflexivity|apply G1; reflexivity].
+    + split; [constructor; [exact C3|apply F1, C4]|]. split; [vm_compute; auto|]. left. split; [unfold es_pid_ok; lia|].
+      constructor; [reflexivity|apply G1; reflexivity].
+    + split; [apply F1, C5|]. split; [vm_compute; exact I|]. left. split; [unfold es_pid_ok; lia|apply G1; reflexivity].
+    + split; [apply F1, C2|]. split; [vm_compute; auto|]. right. split; [unfold table_pid_ok; lia|apply G1; reflexivity].
+  - intros x. unfold ex_events, at_ev. cbn [proj units_of].
+    destruct (0 =? x) eqn:E0; [assert (x = 0) by lia; subst x; vm_compute; reflexivity|].
+    destruct (256 =? x) eqn:E1; [assert (x = 256) by lia; subst x; vm_compute; reflexivity|].
+    destruct (257 =? x) eqn:E2; [assert (x = 257) by lia; subst x; vm_compute; reflexivity|].
+    destruct (4096 =? x) eqn:E3; [assert (x = 4096) by lia; subst x; vm_compute; reflexivity|]. reflexivity.
+  - cbn [fillers ex_events at_ev]. constructor; [split|constructor; [split|constructor; [split|constructor]]].
+    + apply raw_packet_ok; try assumption; try lia; try discriminate. { apply bytes_ok_b. vm_compute. reflexivity. } { rewrite repeat_length. lia. }
+    + right. right. split; [reflexivity|]. split; [reflexivity|]. exists 184%nat. reflexivity.
+    + apply raw_packet_ok; try assumption; try lia; try reflexivity. { constructor. } { cbn. lia. }
+    + right. left. reflexivity.
+    + apply raw_packet_ok; try assumption; try lia; try discriminate. { apply bytes_ok_b. vm_compute. reflexivity. } { rewrite repeat_length. lia. }
+    + left. reflexivity.
+  - vm_compute. repeat split; intros H; try discriminate H; auto.
+  - intros x Hx. vm_compute in Hx. destruct Hx as [<-|[]]. split; [discriminate|].
+    intros c Hc. cbn [units_of] in Hc. vm_compute in Hc. destruct Hc as [<-|[]]. reflexivity.
+Qed.
+
+(* the model run on its bytes delivers: the PAT, the PMT when its third packet is read, the first video PES when the
+   second one starts, and at end of stream the second video PES and the audio PES, in PID order *)
+Example ex_stream_demuxed :
+  demux_all (StreamSpec.stream_bytes ex_stream) = map Ok (expected ex_stream) /\
+  map DemuxerData_PID (expected ex_stream) = [0; 4096; 256; 256; 257] /\
+  length (StreamSpec.stream_bytes ex_stream) = (11 * 188)%nat.
+Proof. vm_compute. repeat split; reflexivity. Qed.
